@@ -131,6 +131,28 @@ def run(tier, seed):
                              "fmt": fmtk, "data": data, "inp": rng.choice(["file", "pipe"])})
             sid += 1
 
+    # stave-level streams whose consecutive readout frames break DIFFERENT lane rules: the frame messages share their leading code
+    # ([E74] / [E75]) and differ in the nested ones ([E9003] / [E9004] / [E9005]) -- every code of every stored message is a distinct
+    # error code of the run (seed C14-H)
+    from . import c13
+    for rep in range(2 if not deep else 8):
+        layer = rng.choice([0, 1, 2, 0, 5])
+        ib = layer <= 2
+        base = [0x20 + l for l in rng.choice(c13.IB_GROUPS)] if ib else rng.choice(c13.OL_SETS)
+        kinds = rng.choice([["chip-id-wrong", "chip-count", "legal", "chip-count", "chip-id-wrong"], ["chip-count", "chip-id-wrong", "dup-chip"],
+                            ["bc-lane-differs", "chip-count", "chip-id-wrong", "legal"]]) if ib else ["bc-chip-differs", "dup-chip", "legal", "bc-lane-differs"]
+        plans = [c13.plan_frame(rng, layer, base, k, rng.randrange(256)) for k in kinds]
+        link = c13.PlannedLink(rng, rng.randrange(12), layer, 5, rng.choice([0, 2]), plans, 0)
+        pk = []
+        while link.k < len(plans):
+            pk += link.hbf(nslots=min(len(plans) - link.k, rng.choice([2, 3, 5])))
+        data = scangen.serialize(pk)
+        path = os.path.join(tmp, "in%d.raw" % sid)
+        open(path, "wb").write(data)
+        jobs.append({"sid": sid, "path": path, "pkts": pk, "mode": ["check", "all", "its-stave"], "analysed": True, "flt": "-", "fargs": [],
+                     "fmt": "json", "data": data, "inp": rng.choice(["file", "pipe"]), "nomodel": True})
+        sid += 1
+
     def work(j):
         sp = os.path.join(tmp, "st_%d_%d.%s" % (j["sid"], id(j), j["fmt"]))
         args = j["fargs"] + j["mode"] + ["-S", sp, "-D", j["fmt"]]
